@@ -9,7 +9,7 @@ import scancorr
 from gen import programs as G
 
 PROP_FILES = ["theories/Props/C01.v", "theories/Inst/C01_inst.v"]
-DEPS = ["theories/Proofs/C01_proofs.vo", "theories/Gen/Blacklists.vo", "theories/Gen/Registry.vo",
+DEPS = ["theories/Proofs/C01_proofs.vo", "theories/Gen/Locations.vo", "theories/Gen/Blacklists.vo", "theories/Gen/Registry.vo",
         "theories/Gen/Constants.vo", "theories/Plugins/All.vo"]
 
 
